@@ -337,7 +337,8 @@ CHECKS['C16'] = dict(
     rule='CounterRemover with n in [-3,6] and ConditionalRemover with scripted outcome sequences (conditions with and without arguments, evaluations counted) on CallbackList, EventDispatcher, EventQueue, '
          'HeterCallbackList, HeterEventDispatcher; plain listeners around them added/removed during the history; triggers direct, queued and re-entrant from inside the wrapped listener (depth<=3); helper '
          'object destroyed right after registration; every trigger carries a unique argument so calls and condition evaluations are attributed; non-trivial = >=1 wrapped listener reached its detachment '
-         'and >=1 later trigger of that list; distinct = trace hash',
+         'and >=1 later trigger of that list; distinct = trace hash; two more configurations (CallbackList, EventQueue) carry a canContinueInvoking policy on the trigger arguments - a quarter of their triggers are already "stopped" when dispatched and must reach exactly the first listener; '
+         'a sixth of the histories on the homogeneous targets place the generation counter of the list(s) 0-9 additions before its wrap (guarded hook; no operations from inside listeners in those histories)',
     jobs=[J('drv_autoremove', 'asan17', '', 20000, 700000, shards=8, shards_thorough=16), J('drv_autoremove', 'clang-asan17', '', 6000, 200000, seed_offset=1, shards=8, shards_thorough=16)],
     assumptions=['explicit user removal of a wrapped listener is not generated (not covered by the statement)'],
     technique='online differential monitor (counter / first-true state machine on top of the snapshot list model), g++ and clang++, ASan+UBSan',
